@@ -207,6 +207,14 @@ def gen_case(world, tier, prop):
           'opcode': OPCODE_OK and sw.random() < 0.33, 'sched_seed': world.seed}
   if templates:
     case['templates'] = templates
+    # every thread also works on ITS copy of the first template: an edit, a dump
+    names0 = NAMES.get(templates[0]['fn']) or []
+    for t, ops in enumerate(threads):
+      if names0 and trng.random() < 0.8:
+        ops.insert(trng.randint(1, len(ops)),
+                   {'op': 'setattr', 'c': 0, 'name': trng.choice(names0), 'v': 95000 + t})
+      if trng.random() < 0.6:
+        ops.insert(trng.randint(1, len(ops)), {'op': 'json', 'c': 0})
   if trng.random() < 0.15:
     # a thread ends with history tracking switched off; threads started AFTER all
     # of these have finished (which may get their idents) must start tracked
